@@ -718,6 +718,9 @@ def render_itp(mols, rnd, fault=None):
         if fault == 'itp-index-beyond-atoms' and mi == fault_mol:
             out += ['[ bonds ]', '1 %d 1 0.3 1000' % (len(m['atoms']) + 1)]
             applied = fault
+        if fault == 'itp-undefined-atom-name' and mi == fault_mol:
+            out += ['[ bonds ]', '%s ZZ9 1 0.3 1000' % m['atoms'][0]['name']]
+            applied = fault
         if fault == 'itp-unknown-section' and mi == fault_mol:
             out += ['[ bogus ]', '1 2 3']
             applied = fault
@@ -983,7 +986,8 @@ def run_case(params):
                 b.feat('itp_later_molecule_longer')
                 b.nontrivial(text, {'itp_text': text[:2500]})
         elif r < 0.88:
-            fault = rnd.choice(['itp-duplicate-atom', 'itp-index-beyond-atoms', 'itp-unknown-section', 'itp-endif-without-if'])
+            fault = rnd.choice(['itp-duplicate-atom', 'itp-index-beyond-atoms', 'itp-unknown-section', 'itp-endif-without-if',
+                                'itp-undefined-atom-name'])
             p, mols, text = check_itp(rnd, b, fault=fault)
             if p == 'skip':
                 b.total -= 1
